@@ -5,9 +5,9 @@ import "verif/txpipe"
 
 func main() {
 	txpipe.Main(txpipe.CheckDef{
-		ID:      "C02",
-		Groups:  []string{"snap", "ser"},
-		Oracles: txpipe.Oracles{Snapshot: true},
+		ID:         "C02",
+		Groups:     []string{"snap", "ser"},
+		Oracles:    txpipe.Oracles{Snapshot: true},
 		QuickBound: 1, ThoroughBound: 2,
 		Rule: "Oracle: the monitor records the logical content of every published database state (commit, merge, persist); each transaction (read-only or update, committed or not) must have all its reads - repeated lookups and scans in both directions, overlaid with its own writes - explained by ONE state that was current between the call that started it and its return.",
 	})
